@@ -148,9 +148,32 @@ func (e *Eval) evalLoop(fr *frame, h *ssa.BasicBlock, body map[*ssa.BasicBlock]b
 		}
 		// header, symbolic t
 		lp.T = -1
+		rotated := len(body) == 1 && body[h]
+		var probe State
+		ev0, ca0, no0 := len(e.Events), len(e.Calls), len(e.Notes)
+		if rotated {
+			probe = st.clone()
+		}
 		e.evalHeader(fr, h, st, lp)
 		headerOut = st.clone()
 		T, contSucc, exitSucc, solved := e.tripCount(fr, h, body, lp)
+		if rotated && solved && T >= 0 {
+			// a one-block loop with its test at the bottom (`for i := range n`): the block runs
+			// once more than the test succeeds.  It was evaluated above only to find that count;
+			// now it is evaluated for real, with the count known.
+			T++
+			e.Events, e.Calls, e.Notes = e.Events[:ev0], e.Calls[:ca0], e.Notes[:no0]
+			lp.T = T
+			for k := range st {
+				delete(st, k)
+			}
+			for k, v := range probe {
+				st[k] = v
+			}
+			lp.mutated = map[*Obj]bool{}
+			e.evalHeader(fr, h, st, lp)
+			headerOut = st.clone()
+		}
 		lastSolved = solved
 		lp.T = T
 		info.T = T
@@ -566,7 +589,12 @@ func (e *Eval) evalLoop(fr *frame, h *ssa.BasicBlock, body map[*ssa.BasicBlock]b
 		}
 	} else if T >= 0 {
 		for _, iv := range ivs {
-			fr.env[iv.phi] = CInt(iv.lin.At(T))
+			if len(body) == 1 && body[h] && T > 0 {
+				// one-block loop: the values that stand after it are those of its last run
+				fr.env[iv.phi] = CInt(iv.lin.At(T - 1))
+			} else {
+				fr.env[iv.phi] = CInt(iv.lin.At(T))
+			}
 		}
 		save := len(e.Events)
 		e.evalHeader(fr, h, exitSt.clone(), lp)
